@@ -2,6 +2,7 @@
 from __future__ import annotations
 
 import copy
+import warnings
 from fractions import Fraction
 
 import numpy as np
@@ -33,12 +34,116 @@ class C13(Hist1Prop):
     EXTRA_TRUST = ["numpy.promote_types / numpy.can_cast are the reference for the model's two 7x7 tables (compared exhaustively each run)"]
 
     def gen_case(self, rng, k, tier):
+        if k % 12 == 5:
+            return self.gen_nd(rng)
         ops, tags = history1.history(rng, nops=(2, 8), invalid_share=0.15, dtype_focus=True)
         if not HAVE_F128:
             for o in ops:
                 if o.get("dtype") == "float128":
                     o["dtype"] = "float64"
         return {"kind": "hist1", "ops": ops, "tags": tags, "tolerance": True}
+
+    # ------------------------------------------------------------------ N-d: dtype of construction / arithmetic
+    def gen_nd(self, rng):
+        d = rng.choice([2, 2, 3])
+        n = rng.choice([0, 1, 4, 9])
+        rows = [[rng.randint(0, 7) / 2 for _ in range(d)] for _ in range(n)]
+        wk = rng.choice(["none", "int32", "int64", "float32", "float64"])
+        ws = None if wk == "none" else [rng.randint(0, 6) if wk.startswith("int") else rng.randint(0, 24) / 4 for _ in range(n)]
+        dt = rng.choice([None, None, "int16", "int32", "int64", "float32", "float64"])
+        ops = [rng.choice(["mul_int", "mul_float", "div", "normalize", "add_int", "add_float", "projection"]) for _ in range(rng.randint(0, 3))]
+        return {"kind": "nd_dtype", "d": d, "rows": rows, "wk": wk, "ws": ws, "dtype": dt, "steps": ops,
+                "ops": [], "tags": ["nd", f"d:{d}", f"weights:{wk}", f"dtype:{dt}"]}
+
+    def run_nd(self, case):
+        from physt import h
+        d, rows = case["d"], np.array(case["rows"], dtype=float).reshape(len(case["rows"]), case["d"])
+        ws = None if case["ws"] is None else np.array(case["ws"], dtype=np.dtype(case["wk"]))
+        edges = [np.array([0.0, 1.0, 2.0, 4.0])] * d
+        kw = {} if case["dtype"] is None else {"dtype": np.dtype(case["dtype"])}
+        log, out = [], {"steps": []}
+
+        def snap(x):
+            return {"dtype": str(x.dtype), "fdt": str(x.frequencies.dtype), "edt": str(x.errors2.dtype),
+                    "freq": [float(v) for v in x.frequencies.ravel()], "err2": [float(v) for v in x.errors2.ravel()]}
+        try:
+            with warnings.catch_warnings():
+                warnings.simplefilter("ignore")
+                x = h(rows, edges, weights=ws, **kw)
+        except Exception as e:
+            return {"outs": {"refused": True}, "log": [f"{type(e).__name__}: {e}"[:160]]}
+        out["init"] = snap(x)
+        other_i = h(np.array([[0.5] * d]), edges)
+        other_f = h(np.array([[0.5] * d]), edges, weights=np.array([1.5]))
+        for st in case["steps"]:
+            before = snap(x)
+            try:
+                with warnings.catch_warnings():
+                    warnings.simplefilter("ignore")
+                    if st == "mul_int":
+                        x = x * 2
+                    elif st == "mul_float":
+                        x = x * 1.5
+                    elif st == "div":
+                        x = x / 2
+                    elif st == "normalize":
+                        x = x.normalize()
+                    elif st in ("add_int", "add_float") and x.ndim != d:
+                        continue          # after a projection the operand no longer has the dimension of `other`
+                    elif st == "add_int":
+                        x = x + other_i
+                    elif st == "add_float":
+                        x = x + other_f
+                    elif st == "projection" and x.ndim < 2:
+                        continue          # a 1-D projection has no further projections
+                    elif st == "projection":
+                        x = x.projection(0)
+                out["steps"].append({"op": st, "ret": "ok", "before": before, "after": snap(x), "other": str((other_i if st == "add_int" else other_f).dtype)})
+            except Exception as e:
+                log.append(f"{st}: {type(e).__name__}: {e}"[:160])
+                out["steps"].append({"op": st, "ret": "REFUSED", "before": before, "after": snap(x)})
+        return {"outs": out, "log": log}
+
+    def oracle_nd(self, case, io):
+        o, fails = io["outs"], []
+        wfloat = case["wk"].startswith("float")
+        want_int = case["dtype"] is not None and case["dtype"].startswith("int")
+        if o.get("refused"):
+            if not (want_int and wfloat):
+                fails.append("refused_valid: N-d construction refused: " + "; ".join(io["log"][:1]))
+            return fails
+        if want_int and wfloat:
+            return ["accepted_invalid: an integer N-d histogram was requested with float weights and accepted"]
+
+        def consistent(sn, where):
+            if not (sn["dtype"] == sn["fdt"] == sn["edt"]):
+                fails.append(f"inconsistent: {where}: dtype {sn['dtype']} over {sn['fdt']} / {sn['edt']} arrays")
+        ini = o["init"]
+        consistent(ini, "after construction")
+        exp = case["dtype"] or ("int64" if case["wk"] == "none" else case["wk"])
+        if ini["dtype"] != exp:
+            fails.append(f"construct_dtype: h(..., weights {case['wk']}, dtype={case['dtype']}) has dtype {ini['dtype']}, expected {exp}")
+        wsum = len(case["rows"]) if case["ws"] is None else sum(case["ws"])
+        for stp in o["steps"]:
+            b, a = stp["before"], stp["after"]
+            consistent(a, "after " + stp["op"])
+            if stp["ret"] != "ok":
+                if stp["op"] == "normalize" and sum(b["freq"]) == 0:
+                    continue
+                fails.append(f"refused_valid: N-d {stp['op']} refused: " + "; ".join(io["log"][:1]))
+                continue
+            kb, ka = np.dtype(b["dtype"]).kind, np.dtype(a["dtype"]).kind
+            if stp["op"] in ("mul_float", "div", "normalize", "add_float") and ka != "f":
+                fails.append(f"truncated: N-d {stp['op']} on {b['dtype']} gave {a['dtype']} (must be float)")
+            if stp["op"] in ("mul_int", "add_int", "projection") and kb == "i" and ka != "i":
+                fails.append(f"not_integral: N-d {stp['op']} on {b['dtype']} gave {a['dtype']} (must stay integer)")
+            if stp["op"] in ("add_int", "add_float") and a["dtype"] != str(np.promote_types(b["dtype"], stp["other"])):
+                fails.append(f"promotion: {b['dtype']} + {stp['other']} gave {a['dtype']}, numpy promotes to {np.promote_types(b['dtype'], stp['other'])}")
+            if stp["op"] == "mul_float" and any(abs(y - 1.5 * x) > 1e-6 * max(1, abs(y)) for x, y in zip(b["freq"], a["freq"])):
+                fails.append(f"truncated: N-d * 1.5 turned {b['freq']} into {a['freq']}")
+            if stp["op"] == "div" and any(abs(y - x / 2) > 1e-6 * max(1, abs(y)) for x, y in zip(b["freq"], a["freq"])):
+                fails.append(f"truncated: N-d / 2 turned {b['freq']} into {a['freq']}")
+        return fails[:6]
 
     def exhaustive_cases(self, tier):
         # one pseudo-case: the table comparison (handled in run_impl / oracle)
@@ -56,6 +161,8 @@ class C13(Hist1Prop):
             t = {"promote": {a: {b: str(np.promote_types(a, b)) for b in DT} for a in DT},
                  "can_cast": {a: {b: bool(np.can_cast(np.dtype(a), np.dtype(b))) for b in DT} for a in DT}}
             return {"outs": t, "log": []}
+        if case["kind"] == "nd_dtype":
+            return self.run_nd(case)
         from .c18 import PROP as C18P
         return C18P.run_impl(case)
 
@@ -74,6 +181,8 @@ class C13(Hist1Prop):
     def oracle(self, case, io):
         if case["kind"] == "tables":
             return []
+        if case["kind"] == "nd_dtype":
+            return self.oracle_nd(case, io)
         outs, ops = io["outs"], case["ops"]
         fails = []
         for k, op in enumerate(ops):
@@ -196,16 +305,22 @@ class C13(Hist1Prop):
         return all(Fraction(float(info.min)) <= v <= Fraction(float(info.max)) for v in vals)
 
     def model_case(self, case, io):
+        if case["kind"] == "nd_dtype":
+            return None          # oracle only (the N-d dtype rules are those of the shared base class)
         return case
 
     def tags(self, case, io):
         if case["kind"] == "tables":
             return ["tables"]
+        if case["kind"] == "nd_dtype":
+            return list(case["tags"]) + [f"step:{s}" for s in case["steps"]]
         return super().tags(case, io)
 
     def nontrivial(self, case, io):
         if case["kind"] == "tables":
             return True
+        if case["kind"] == "nd_dtype":
+            return len(case["rows"]) > 0
         seen = {}
         for o in io["outs"]:
             for i, r in enumerate(o["regs"]):
